@@ -88,6 +88,8 @@ package verifext
 //@ requires state != nil && state.Share != nil && len(state.Share.Committee) > 0
 //@ requires forall k int :: 0 <= k && k < len(state.Share.Committee) ==> state.Share.Committee[k] != nil
 //@ requires round >= specqbft.FirstRound && round <= 4611686018427387904
+// (int(state.Height) % n: a height of 2^63 or more is negative as an int, and so is the index - F20)
+//@ requires raw(state.Height) <= 9223372036854775807
 //@ ensures exists k int :: 0 <= k && k < len(state.Share.Committee) && result == state.Share.Committee[k].OperatorID
 
 // SSVMessage accessors are plain field reads.
